@@ -15,6 +15,7 @@ import Kingdon.Model.Composite
 import Kingdon.Model.Hitzer
 import Kingdon.Model.Matrix
 import Kingdon.Lemmas.SourceBase
+import Kingdon.Generated.SourcePoly
 open Kingdon
 
 def hexDigit? (ch : Char) : Option Nat :=
@@ -161,6 +162,88 @@ partial def parseOperand : List String → Option (Api.Operand String × List St
 partial def renderResult : Api.Result String → String
   | .mv x => x
   | .seq t xs => (if t then "(" else "[") ++ String.intercalate " " (xs.map renderResult) ++ (if t then ")" else "]")
+
+/-! ### the C17 stack machine over the *translated* methods of kingdon/polynomial.py (validates the translation by execution) -/
+namespace SrcPolyRun
+open Kingdon
+
+inductive Val where
+  | p (x : Py.Poly) | r (x : Py.Rat) | b (x : Bool) | err (e : String)
+
+def renderAtom : Py.Atom → String
+  | .num n => toString n
+  | .str s => String.ofList s
+  | .none => "None"
+def renderMono (m : Py.Mono) : String := "[" ++ String.intercalate "," (m.map renderAtom) ++ "]"
+def renderPoly (p : Py.Poly) : String := "[" ++ String.intercalate "," (p.map renderMono) ++ "]"
+def Val.render : Val → String
+  | .p x => "P" ++ renderPoly x
+  | .r x => "R" ++ renderPoly x.1 ++ "/" ++ renderPoly x.2
+  | .b x => if x then "True" else "False"
+  | .err e => "raise:" ++ e
+
+def one : Py.Poly := [[.num 1]]
+def liftP (x : Py.M Py.Poly) : Val := match x with | .ok v => .p v | .error e => .err e
+def liftR (x : Py.M Py.Rat) : Val := match x with | .ok v => .r v | .error e => .err e
+def liftB (x : Py.M Bool) : Val := match x with | .ok v => .b v | .error e => .err e
+
+/-- `x ** n` through the model's `power_supply` with the translated multiplication -/
+def powWith {β} (mulf : β → β → Py.M β) (x : β) (n : Nat) : Py.M β :=
+  match KP.powerSupply (fun (a b : Py.M β) => do mulf (← a) (← b)) (pure x) n with
+  | some l => match l.getLast? with
+    | some v => v
+    | none => throw "KeyError"
+  | none => throw "KeyError"
+
+def exec (tok : String) (st : List Val) : Option (List Val) :=
+  match tok.splitOn ":" , st with
+  | ["n", k], st => k.toInt?.map fun k => .p [[.num k]] :: st
+  | ["v", x], st => some (.p [[.num 1, .str x.toList]] :: st)
+  | ["rn", k], st => k.toInt?.map fun k => .r ([[.num k]], one) :: st
+  | ["rv", x], st => some (.r ([[.num 1, .str x.toList]], one) :: st)
+  | ["rz"], st => some (.r ([], one) :: st)
+  | ["pz"], st => some (.p [] :: st)
+  | ["dup"], a :: st => some (a :: a :: st)
+  | ["swap"], a :: b :: st => some (b :: a :: st)
+  | ["add"], .p b :: .p a :: st => some (liftP (SrcPoly.poly_add a b) :: st)
+  | ["add"], .r b :: .r a :: st => some (liftR (SrcPoly.rat_add a b) :: st)
+  | ["mul"], .p b :: .p a :: st => some (liftP (SrcPoly.poly_mul a b) :: st)
+  | ["mul"], .r b :: .r a :: st => some (liftR (SrcPoly.rat_mul a b) :: st)
+  | ["sub"], .p b :: .p a :: st => some (liftP (SrcPoly.poly_sub a b) :: st)
+  | ["sub"], .r b :: .r a :: st => some (liftR (SrcPoly.rat_sub a b) :: st)
+  | ["neg"], .p a :: st => some (liftP (SrcPoly.poly_neg a) :: st)
+  | ["neg"], .r a :: st => some (liftR (SrcPoly.rat_neg a) :: st)
+  | ["div"], .r b :: .r a :: st => some (liftR (SrcPoly.rat_div a b) :: st)
+  | ["mkr"], .p b :: .p a :: st => some (.r (a, b) :: st)
+  | ["rdiv", k], .r a :: st => k.toInt?.map fun k => liftR (SrcPoly.rat_rdiv_int a k) :: st
+  | ["pow", k], .p a :: st => k.toNat?.map fun k => liftP (powWith SrcPoly.poly_mul a k) :: st
+  | ["pow", k], .r a :: st => k.toInt?.map fun k =>
+      liftR (if k < 0 then do SrcPoly.rat_rdiv_int (← powWith SrcPoly.rat_mul a k.natAbs) 1 else powWith SrcPoly.rat_mul a k.toNat) :: st
+  | ["eq"], .p b :: .p a :: st => some (liftB (SrcPoly.poly_eq a b) :: st)
+  | ["eq"], .r b :: .r a :: st => some (liftB (SrcPoly.rat_eq a b) :: st)
+  | ["eq0"], .p a :: st => some (liftB (SrcPoly.poly_eq_int a 0) :: st)
+  | ["eq0"], .r a :: st => some (liftB (SrcPoly.rat_eq_int a 0) :: st)
+  | ["eq1"], .p a :: st => some (liftB (SrcPoly.poly_eq_int a 1) :: st)
+  | ["eq1"], .r a :: st => some (liftB (SrcPoly.rat_eq_int a 1) :: st)
+  | ["bool"], .p a :: st => some (liftB (SrcPoly.poly_bool a) :: st)
+  | ["bool"], .r a :: st => some (liftB (SrcPoly.rat_bool a) :: st)
+  | _, _ => none
+
+def runProgram (toks : List String) : String :=
+  let rec go (toks : List String) (st : List Val) : String :=
+    match toks with
+    | [] => match st with
+      | v :: _ => v.render
+      | [] => "empty"
+    | t :: ts =>
+      match st with
+      | .err e :: _ => "raise:" ++ e
+      | _ => match exec t st with
+        | some st' => go ts st'
+        | none => "bad-op"
+  go toks []
+end SrcPolyRun
+
 
 /-- a stored kingdon polynomial as an executable normal-form polynomial over variable ids -/
 def kpolyToPoly (ids : List (String × Nat)) (p : KP.Poly) : Poly :=
@@ -326,6 +409,7 @@ def step (line : String) : String :=
     | some c, some gs, some kx => renderMV (gradeSel c gs (symMV 0 kx))
     | _, _, _ => "bad-op"
   | "kpoly" :: prog => KP.runProgram prog
+  | "srckpoly" :: prog => SrcPolyRun.runProgram prog
   | ["wedgepowers", cs, kx] =>
     match parseCfg cs, parseNatList kx with
     | some c, some kx => String.intercalate "|" ((wedgePowers c Poly.isZero (symMV 0 kx)).map renderMV)
